@@ -24,7 +24,7 @@ RULE = (
 )
 ASSUMPTIONS = [
     "merge tolerance TOL = 1e-7 (documented constant); displaced copies sit at 0.4 TOL (must merge) or 3 TOL (must not)",
-    "corners with different non-empty slave sets at one position are unconstrained by the statement",
+    "'the blocks on the slave side' at a position = the operations joined face to face (by faces that are not the merged interface) with one that carries the slave patch there; corners of groups that are joined by an edge or a point only are unconstrained unless they carry the same slave patches",
 ]
 TOL = 1e-7
 
@@ -139,6 +139,44 @@ def model_keys(ops, merges):
     return keys
 
 
+def side_groups(ops, merges, keys):
+    """which corners at one position belong to the same side of the merged interfaces: two operations are joined at a
+    position if they share a whole face (four common positions) that contains it and is not itself a master/slave
+    interface; groups = transitive closure. -> {(op, corner): group id}, set of group ids that hold a slave corner,
+    {(op, corner): set of merged pairs whose MASTER patch the corner lies on}"""
+    pairs = set(merges)
+    n = len(ops)
+    face_cids = {(b, side): frozenset(keys[(b, c)][0] for c in bm.FACES[side]) for b in range(n) for side in bm.FACES}
+    parent = {oc: oc for oc in keys}
+
+    def find(x):
+        while parent[x] != x:
+            parent[x] = parent[parent[x]]
+            x = parent[x]
+        return x
+
+    for a in range(n):
+        for b in range(a + 1, n):
+            for sa in bm.FACES:
+                for sb in bm.FACES:
+                    if face_cids[(a, sa)] != face_cids[(b, sb)] or len(face_cids[(a, sa)]) != 4:
+                        continue
+                    na, nb = ops[a]["patches"].get(sa), ops[b]["patches"].get(sb)
+                    if (na, nb) in pairs or (nb, na) in pairs:
+                        continue  # the merged interface itself
+                    for ca in bm.FACES[sa]:
+                        for cb_ in bm.FACES[sb]:
+                            if keys[(a, ca)][0] == keys[(b, cb_)][0]:
+                                parent[find((a, ca))] = find((b, cb_))
+    group = {oc: find(oc) for oc in keys}
+    slave_groups = {group[oc] for oc, k in keys.items() if k[1]}
+    masters = {m: s for m, s in merges}
+    on_master = {}
+    for (b, c) in keys:
+        on_master[(b, c)] = {(name, masters[name]) for side, name in ops[b]["patches"].items() if c in bm.FACES[side] and name in masters}
+    return group, slave_groups, on_master
+
+
 def build(case, order, ops, merges):
     import classy_blocks as cb
 
@@ -163,6 +201,7 @@ def run_case(case):
     n = len(cells)
     ops, merges = declare(case)
     keys = model_keys(ops, merges)
+    group, slave_groups, on_master = side_groups(ops, merges, keys)
     violations = []
     partitions = {}
     execs = 0
@@ -198,12 +237,24 @@ def run_case(case):
                 if kx[0] != ky[0]:
                     if same_v:
                         violations.append({"clause": "different-positions-share-a-vertex", "coords": coords, "detail": f"{x} and {y} -> vertex {idx[x]}"})
-                elif kx[1] == ky[1]:
-                    if not same_v:
-                        violations.append({"clause": "same-position-same-slaves-not-shared", "coords": coords, "detail": f"{x} -> {idx[x]}, {y} -> {idx[y]}, slave set {sorted(kx[1])}"})
-                elif (not kx[1]) != (not ky[1]):
+                    continue
+                gx, gy = group[x], group[y]
+                across = any(s_ in ky[1] for _, s_ in on_master[x]) or any(s_ in kx[1] for _, s_ in on_master[y])
+                if across:
+                    # one corner lies on the master patch, the other on the slave patch of one merged pair
                     if same_v:
                         violations.append({"clause": "slave-corner-shares-with-master-side", "coords": coords, "detail": f"{x} {sorted(kx[1])} and {y} {sorted(ky[1])} -> vertex {idx[x]}"})
+                elif gx == gy and gx in slave_groups:
+                    # blocks joined face to face on the slave side of an interface: one copy for all of them, whether or
+                    # not each of them carries (the same) slave patch at this corner
+                    if not same_v:
+                        violations.append({"clause": "slave-side-neighbours-not-sharing-the-copy", "coords": coords, "detail": f"{x} (slave patches here: {sorted(kx[1])}) -> vertex {idx[x]}, {y} ({sorted(ky[1])}) -> vertex {idx[y]}: the two operations share a whole face at this position"})
+                elif gx in slave_groups or gy in slave_groups:
+                    if kx[1] and kx[1] == ky[1] and not same_v:
+                        violations.append({"clause": "same-position-same-slaves-not-shared", "coords": coords, "detail": f"{x} -> {idx[x]}, {y} -> {idx[y]}, slave set {sorted(kx[1])}"})
+                    # (anything else between a slave-side group and another group is not decided by the statement)
+                elif not same_v:
+                    violations.append({"clause": "same-position-same-slaves-not-shared", "coords": coords, "detail": f"{x} -> {idx[x]}, {y} -> {idx[y]}, slave set {sorted(kx[1])}"})
         # dense numbering, list order, file
         vs = mesh.vertex_list.vertices
         if [v.index for v in vs] != list(range(len(vs))):
